@@ -130,14 +130,26 @@ def main(argv):
         harness_problem = 'determinism sample: digests differ for %r' % (
             det_bad[:3],)
     backstop = []
-    if info['worker_deaths'] or info['timed_out']:
-        if check == 'C08' and info['dead_runs'] and not info['timed_out']:
-            backstop = info['dead_runs']
+    if info['confirmed_crashes']:
+        harness_problem = ('worker crashed again when the run was retried '
+                           'alone: %r' % (info['confirmed_crashes'][:4],))
+    if info['confirmed_timeouts']:
+        if check == 'C08':
+            backstop = [tuple(x) for x in info['confirmed_timeouts']]
         else:
-            harness_problem = ('worker death/timeout: deaths=%d timed_out=%s '
-                               'dead_runs=%r' % (info['worker_deaths'],
-                                                 info['timed_out'],
-                                                 info['dead_runs'][:4]))
+            harness_problem = ('run stalled (no progress for the stall '
+                               'limit) also when retried alone: %r' % (
+                                   info['confirmed_timeouts'][:4],))
+    confirmed = {(x[0], x[1]) for x in info['confirmed_timeouts'] +
+                 info['confirmed_crashes']}
+    info['transient_worker_failures'] = [
+        x for x in info['transient_worker_failures']
+        if (x[0], x[1]) not in confirmed]
+    if info['transient_worker_failures']:
+        print('NOTE %d worker failure(s) did not recur when the run was '
+              'retried alone in a fresh worker: %r' % (
+                  len(info['transient_worker_failures']),
+                  info['transient_worker_failures'][:4]))
     for population, i, cls, vjson, trace in agg.violations:
         prop = vjson['property']
         k = core.is_known(known, prop, cls)
@@ -226,6 +238,10 @@ def main(argv):
         'probes': dict(sorted(agg.probes.items())),
         'extra': {k: (sorted(v)[:50] if isinstance(v, set) else v)
                   for k, v in sorted(agg.extra.items())},
+        'worker_failures': {
+            'transient_not_recurring': info['transient_worker_failures'],
+            'confirmed_timeouts': info['confirmed_timeouts'],
+            'confirmed_crashes': info['confirmed_crashes']},
         'determinism_sample': {'seeds_run_twice': det_n,
                                'mismatches': len(det_bad)},
         'components': REAL_STUB[world],
